@@ -254,8 +254,12 @@ func (ps *parser) parsePostfix() (*Expr, error) {
 				return nil, err
 			}
 			return &Expr{Kind: "let", Name: nm.text, Args: []*Expr{val, body}}, nil
-		case "forall", "exists":
+		case "forall", "exists", "setof":
 			q := &Expr{Kind: t.text}
+			paren := false
+			if t.text == "setof" && ps.accept("(") {
+				paren = true
+			}
 			for {
 				nm := ps.next()
 				if nm.kind != "id" {
@@ -296,6 +300,11 @@ func (ps *parser) parsePostfix() (*Expr, error) {
 				return nil, err
 			}
 			q.Args = []*Expr{body}
+			if paren {
+				if err := ps.expect(")"); err != nil {
+					return nil, err
+				}
+			}
 			return q, nil
 		default:
 			e = &Expr{Kind: "ident", Name: t.text}
@@ -320,12 +329,21 @@ func (ps *parser) parsePostfix() (*Expr, error) {
 		switch {
 		case ps.accept("."):
 			nm := ps.next()
+			if nm.kind == "op" && nm.text == "*" {
+				nm = tok{"id", "*", nm.pos}
+			}
 			if nm.kind != "id" {
 				return nil, fmt.Errorf("field name expected at %d in %q", nm.pos, ps.src)
 			}
 			e = &Expr{Kind: "field", Name: nm.text, Args: []*Expr{e}}
 		case ps.accept("["):
 			// index or slice-free
+			if ps.peek().kind == "op" && ps.peek().text == "*" && ps.toks[ps.p+1].kind == "op" && ps.toks[ps.p+1].text == "]" {
+				ps.next()
+				ps.next()
+				e = &Expr{Kind: "index", Args: []*Expr{e, {Kind: "ident", Name: "*"}}}
+				continue
+			}
 			idx, err := ps.parse(0)
 			if err != nil {
 				return nil, err
@@ -391,7 +409,7 @@ func (e *Expr) String() string {
 			as = append(as, a.String())
 		}
 		return e.Name + "(" + strings.Join(as, ", ") + ")"
-	case "forall", "exists":
+	case "forall", "exists", "setof":
 		var bs []string
 		for _, b := range e.BVars {
 			bs = append(bs, b.Name+" "+b.Type)
